@@ -2,14 +2,19 @@
     (on bitcoin-script: texts) against the model's executable definitions. *)
 From Coq Require Import String List NArith ZArith Bool.
 From Coq Require Import Strings.Byte.
-From GoBT Require Import lib.Bytes lib.Hex lib.Str model.Bip276 corr.Corr.
+From GoBT Require Import lib.Bytes lib.Hex lib.Str model.Bip276 model.AsmArena model.Bip276Mem corr.Corr.
 Import ListNotations.
 Local Open Scope string_scope.
 
 Inductive case :=
 | CEnc (p : string) (version network : Z) (d : bytes) (out : string)
 | CDec (text : string) (res : option (string * Z * Z * bytes))
-| CVal (text : string) (ok : bool).
+| CVal (text : string) (ok : bool)
+(* the payload handed to the encoder as a window (offset, length, capacity) of a larger buffer of the caller's:
+   [buf] is the buffer before the call, [written] the places that read differently after it (with what they read
+   then), [out] the text.  The model (model/Bip276Mem.v) computes the text from the bytes the window denotes and
+   the buffer afterwards — which is the buffer before. *)
+| CEncWin (p : string) (version network : Z) (buf : bytes) (off len cap : N) (written : list (N * byte)) (out : string).
 
 Definition check (c : case) : bool :=
   match c with
@@ -26,6 +31,9 @@ Definition check (c : case) : bool :=
       (* only the BIP276 branch belongs to this property; the Base58 branch is C15's *)
       has_prefix "bitcoin-script:" text &&
       Bool.eqb (validate_address_with (fun _ => false) text) ok
+  | CEncWin p v n buf off len cap written out =>
+      let '(after, text) := encode_mem buf (mkCall p v n (Win (N.to_nat off) (N.to_nat len) (N.to_nat cap))) in
+      String.eqb text out && bytes_eqb after (apply_writes buf written)
   end.
 
 Definition mismatches := mismatches_with check.
